@@ -16,7 +16,7 @@ func (e *Engine) preludeDecls() []string {
 	return []string{
 		"(declare-fun slen (Int) (_ BitVec 64))",
 		"(declare-fun strarr (Int) (Array (_ BitVec 64) (_ BitVec 8)))",
-		"(declare-fun ismapped ((Array (_ BitVec 64) (_ BitVec 8)) (_ BitVec 64)) Bool)",
+		"(declare-fun ismapped (Int (_ BitVec 64)) Bool)",
 	}
 }
 
